@@ -7,7 +7,9 @@
      AstProfileTransformer                 ast_profile_transformer.py:39-154
      ast.fix_missing_locations             (CPython: a node without a location takes
                                             the location of the closest located ancestor,
-                                            line 1 at module level)
+                                            line 1 at module level; since the inserted
+                                            statements copy the location of their import it
+                                            no longer changes anything on a parsed tree)
 
    Only executable definitions here; the proofs are in TransformFacts.v. *)
 From LP Require Import Prelude.Py Gen.RelImport Ast.AstLite Ast.AuxStr Ast.Select.
@@ -43,31 +45,67 @@ Definition insert_at {A} (i : Z) (x : A) (l : list A) : list A :=
 
 Definition ins_state := (list stmt * list string)%type.   (* tree.body, profiled_imports *)
 
+(* the location ast.copy_location takes from a statement *)
+Definition stmt_line (s : stmt) : option Z :=
+  match s with
+  | FuncDef _ _ _ _ l | ClassDef _ _ _ l | Import _ l | ImportFrom _ _ _ l | Compound _ _ l | Other _ l => Some l
+  | ProfCall _ loc => loc
+  end.
+
+(* for offset, name in enumerate(names, start=1): tree.body.insert(tree_index + offset, expr) *)
+Fixpoint insert_names (i : Z) (loc : option Z) (names : list string) (st : ins_state) : ins_state :=
+  match names with
+  | [] => st
+  | n :: r => insert_names (i + 1) loc r (insert_at i (ProfCall n loc) (fst st), snd st ++ [n])
+  end.
+
 Definition insert_step (d : dict) (st : ins_state) (k : Z) : ins_state :=
   match dict_get d k with
-  | Some n => (insert_at (k + 1) (ProfCall n None) (fst st), snd st ++ [n])
+  | Some names =>
+      (* import_node = tree.body[tree_index]; the keys are enumerate() indexes of tree.body, so a
+         negative or too large key (wrap-around / IndexError in python) is unreachable: no-op *)
+      if k <? 0 then st
+      else match nth_error (fst st) (Z.to_nat k) with
+           | Some s => insert_names (k + 1) (stmt_line s) names st
+           | None => st
+           end
   | None => st
   end.
 
 Definition insert_regs (d : dict) (body : list stmt) : ins_state :=
   fold_left (insert_step d) (sort_desc (map fst d)) (body, []).
 
+(* what the descending insertion amounts to (TransformFacts.insert_regs_expand): every
+   statement is followed by one registration per name recorded for its index, in order,
+   each carrying that statement's location *)
+Fixpoint expand (f : Z -> list string) (i : Z) (body : list stmt) : list stmt :=
+  match body with
+  | [] => []
+  | s :: r => s :: map (fun n => ProfCall n (stmt_line s)) (f i) ++ expand f (i + 1) r
+  end.
+
 (* ---- AstProfileTransformer -------------------------------------------------------- *)
 (* names.name if names.asname is None else names.asname *)
 Definition node_name (a : alias) : string :=
   match snd a with None => fst a | Some s => s end.
 
-Definition visit_name (st : list stmt * list string) (a : alias) : list stmt * list string :=
-  let nn := node_name a in
-  if str_in nn (snd st) then st
-  else (fst st ++ [ProfCall nn None], snd st ++ [nn]).
+(* one iteration of _visit_import's loop; [loc] is the location of the import node *)
+Definition visit_name (loc : option Z) (st : list stmt * list string) (a : alias) : list stmt * list string :=
+  if is_star a then st
+  else
+    let nn := node_name a in
+    if str_in nn (snd st) then st
+    else (fst st ++ [ProfCall nn loc], snd st ++ [nn]).
 
 (* the registration statements _visit_import appends after an import *)
-Definition visit_import_names (pi : list string) (ns : list alias) : list stmt * list string :=
-  fold_left visit_name ns ([], pi).
+Definition visit_import_names (loc : option Z) (pi : list string) (ns : list alias) : list stmt * list string :=
+  fold_left (visit_name loc) ns ([], pi).
 
 Definition add_deco (ds : list deco) : list deco :=
   if has_profile ds then ds else ds ++ [DName profile_name].
+
+(* getattr(node, 'module', None) == '__future__' *)
+Definition from_future (m : option string) : bool := ostr_eqb m (Some "__future__").
 
 Fixpoint visit_stmt (imports : bool) (pi : list string) (s : stmt) : list stmt * list string :=
   match s with
@@ -83,11 +121,12 @@ Fixpoint visit_stmt (imports : bool) (pi : list string) (s : stmt) : list stmt *
                 let '(b', pi') := smap (visit_stmt imports) pi (snd p) in
                 ([(fst p, b')], pi')) pi bs in
       ([Compound i bs' l], pi')
-  | Import ns _ =>
-      if imports then let '(extra, pi') := visit_import_names pi ns in (s :: extra, pi')
+  | Import ns l =>
+      if imports then let '(extra, pi') := visit_import_names (Some l) pi ns in (s :: extra, pi')
       else ([s], pi)
-  | ImportFrom _ ns _ _ =>
-      if imports then let '(extra, pi') := visit_import_names pi ns in (s :: extra, pi')
+  | ImportFrom m ns _ l =>
+      if imports && negb (from_future m)
+      then let '(extra, pi') := visit_import_names (Some l) pi ns in (s :: extra, pi')
       else ([s], pi)
   | _ => ([s], pi)
   end.
@@ -129,12 +168,9 @@ Definition pre (c : cfg) (body : list stmt) : list stmt :=
   match c_module c with Some m => absolutize m body | None => body end.
 
 (* AstTree(Module)Profiler.profile() *)
-Definition transform (c : cfg) (body : list stmt) : res (list stmt) :=
+Definition transform (c : cfg) (body : list stmt) : list stmt :=
   let t0 := pre c body in
-  match select (c_sel c) t0 with
-  | Ok d => Ok (profile_ast_tree (c_full c) (c_imports c) d t0)
-  | Err e => Err e
-  end.
+  profile_ast_tree (c_full c) (c_imports c) (select (c_sel c) t0) t0.
 
 (* ---- executable property predicates (also evaluated on the implementation's output) - *)
 Definition deco_once (f : fhead) : fhead :=
